@@ -738,9 +738,17 @@ func init() {
 	natives["(*sync.Cond).Wait"] = func(fr *frame, args []value) value { panic(pathAbort{"sync.Cond.Wait would block", false}) }
 	natives["(*sync.Once).Do"] = func(fr *frame, args []value) value {
 		o := args[0].(*value)
-		st := (*o).(structure)
-		_ = st
 		if onceDone[o] {
+			return nil
+		}
+		if isGlobalCell(fr.i, o) {
+			// a package-level Once guards lazy initialisation of package state: run it the way
+			// package initialisers run (concretely, not rolled back between paths)
+			onceDone[o] = true
+			savedPx, savedJ := px, journalOn
+			px, journalOn = nil, false
+			defer func() { px, journalOn = savedPx, savedJ }()
+			call(fr.i, fr, 0, args[1], nil)
 			return nil
 		}
 		onceDone[o] = true
@@ -1070,4 +1078,22 @@ func errorsAs(fr *frame, err, target iface, depth int) value {
 		return errorsAs(fr, next, target, depth+1)
 	}
 	return false
+}
+
+var globalCellCache = map[*value]bool{}
+
+// isGlobalCell reports whether p is the storage cell of a package-level variable.
+func isGlobalCell(i *interpreter, p *value) bool {
+	if v, ok := globalCellCache[p]; ok {
+		return v
+	}
+	res := false
+	for _, addr := range i.globals {
+		if addr == p {
+			res = true
+			break
+		}
+	}
+	globalCellCache[p] = res
+	return res
 }
